@@ -36,7 +36,7 @@ class Gen:
                              f"sorted(({self.expr(depth + 1)} + i for i in range(3)), key=abs)[0]",
                              f"max((i for i in range({r.randrange(3)})), default={self.expr(depth + 1)})"])
         if k == 11: return f"note({self.expr(depth + 1)})"
-        if k == 12:
+        if k == 12 and not getattr(self, "no_walrus", False):
             n = self.fresh_name()
             return f"({n} := {self.expr(depth + 1)})"
         return f"(-{self.expr(depth + 1)})"
@@ -107,9 +107,39 @@ class Gen:
             L += ["else:"] + ["    " + l for l in self.block(depth)]
         return L
 
+    def for_lines(self, depth):
+        # (a walrus in the iterable of a for statement is KF-D16b: none is generated there)
+        self.no_walrus = True
+        try:
+            return self._for_lines(depth)
+        finally:
+            self.no_walrus = False
+
+    def _for_lines(self, depth):
+        r = self.r
+        k = r.randrange(4)
+        if k == 0:
+            t, w = self.target(); self.commit(w)
+            head = f"for {t} in {r.choice(['[%s, %s]', 'iter([%s, %s])', '(note(q) for q in [%s, %s])']) % (self.expr(2), self.expr(2))}:"
+        elif k == 1:
+            head = f"for {self.fresh_name()} in range({r.randrange(0, 3)}):"
+        elif k == 2:
+            a, b = self.fresh_name(), self.fresh_name()
+            head = f"for {a}, {b} in [({self.expr(2)}, {self.expr(2)}), [{self.expr(2)}, {self.expr(2)}]]:"
+        else:
+            a, b = self.fresh_name(), self.fresh_name()
+            head = f"for [{a}, *{b}] in (iter([{self.expr(2)}, {self.expr(2)}]), [{self.expr(2)}]):"
+        self.no_walrus = False
+        L = [head] + ["    " + l for l in self.block(depth)]
+        if r.randrange(3) == 0:
+            L += ["else:"] + ["    " + l for l in self.block(depth)]
+        return L
+
     def stmt_lines(self, depth=0):
         if depth < 2 and self.r.randrange(4) == 0:
             return self.if_lines(depth)
+        if depth < 2 and self.r.randrange(6) == 0:
+            return self.for_lines(depth)
         return [self.stmt()]
 
     def pattern(self, depth=0):
